@@ -117,6 +117,10 @@ pub trait Observer {
     fn extra_op(&mut self, _w: &mut World, _op: &[u16; 5], _notes: &mut EpochNotes) -> CaseResult {
         Ok(())
     }
+    /// Called right before member `receiver` processes the genuine commit `bytes`.
+    fn before_receive_commit(&mut self, _w: &mut World, _receiver: usize, _bytes: &[u8]) -> CaseResult {
+        Ok(())
+    }
     /// Called when the library refused to build a commit.
     fn commit_refused(&mut self, _w: &mut World, _committer: usize, _e: &OpErr) -> CaseResult {
         Ok(())
@@ -254,7 +258,7 @@ impl<'a> History<'a> {
         self.classify_before_commit();
         obs.before_commit(&mut self.w, committer)?;
         let before_leaves = tree_shape(&self.w).0;
-        match self.w.commit_round(committer, &spec)? {
+        match self.w.commit_round_with(committer, &spec, &mut |w, m, b| obs.before_receive_commit(w, m, b))? {
             Err(e) => {
                 self.stats.commit_build_errors += 1;
                 self.w.count(&format!("commit_refused:{}", e.class()));
@@ -545,7 +549,7 @@ impl<'a> History<'a> {
                 }
                 let via = via_candidates[pick(op[1], via_candidates.len())];
                 obs.before_commit(&mut self.w, joiner)?;
-                match self.w.external_commit_round(joiner, via, remove_leaf, tree_in_info, op[4])? {
+                match self.w.external_commit_round_with(joiner, via, remove_leaf, tree_in_info, op[4], &mut |w, m, b| obs.before_receive_commit(w, m, b))? {
                     Err(e) => {
                         self.stats.commit_build_errors += 1;
                         self.w.count(&format!("external_commit_refused:{}", e.class()));
@@ -680,6 +684,8 @@ pub fn run_property<O: Observer>(
             ev.nontrivial(case);
             ev.sample(&format!("nt{}", h.stats.commits % 4), || describe_case(case, hp));
         }
+        // a few generated histories are always written out
+        ev.sample(&format!("any{}", (h.stats.commits + h.stats.external_commits) % 5), || describe_case(case, hp));
         Ok(())
     };
 
